@@ -242,6 +242,11 @@ def engine_cases(rng, tier):
                     if e == "ExecuteDAGModel":
                         kw["layers"] = [names[:2], names[2:]]
                     cases.append(base(e, rules, **kw))
+                    if e == "ExecuteDAGModel":
+                        # the faulty rule ALONE in its layer (first, middle or last layer), also when unknown names thin a layer down to it
+                        cases.append(base(e, rules, **dict(kw, layers=[[n] for n in names])))
+                        cases.append(base(e, rules, **dict(kw, layers=[[names[pos], "zz"], [n for n in names if n != names[pos]]])))
+                        cases.append(base(e, rules, **dict(kw, layers=[[n for n in names if n != names[pos]], ["zz", names[pos]]])))
     if tier != "quick":
         for _ in range(3000):
             cases.append(engfam.rand_case(rng, rng.choice(engfam.ENTRIES), kinds=("plain", "ret", "fail", "panic1", "panic2", "loop"), weights=(3, 3, 1, 1, 1, 1)))
